@@ -126,8 +126,9 @@ PLANS = {
             main_stage(40, 300, tier, death_is_violation=True),
             main_stage(40, 300, tier, build="rel", name="rel", death_is_violation=True),
             main_stage(60, 120, tier, build="valgrind", name="valgrind", death_is_violation=True, shards=8),
-            # the command-line tool must not die on any input file / option combination
-            dict(main_stage(60, 240, tier, name="cli", shards=8), needs=["py", "cli"], extra=["--prop-alias", "C19", "--scale", "2"],
+            # the command-line tool (built with debug assertions and overflow checks) must not die on any input file /
+            # option combination
+            dict(main_stage(60, 240, tier, name="cli", shards=8), needs=["py", "clidbg"], cli_debug=True, extra=["--prop-alias", "C19", "--scale", "2"],
                         kinds_re="^cli_failed$"),
         ] + ([] if tier == "quick" else [
             main_stage(60, 300, tier, build="asan", name="asan", death_is_violation=True),
@@ -235,7 +236,7 @@ PLANS = {
         "stages": [main_stage(60, 300, tier),
                    # field requests as the Python binding spells them (fields={...}): split results and per-call overrides
                    dict(main_stage(60, 240, tier, name="pyfields", shards=8), needs=["py", "cli"], extra=["--prop-alias", "C19", "--scale", "2"],
-                        kinds_re="^python_(split|mode_override)$")],
+                        kinds_re="^python_(split|mode_override|pretokenizer_fields)$")],
         "require": ["words_swept_over_all_subsets", "tokenizations_compared", "tokenizations_where_only_partition_is_promised", "pyfields.py_field_split_checks"],
         "rule": "seeded stacks (system + 0-3 user dictionaries, with/without synonym ids, splits, dictionary-form references); for EVERY word "
                 "of every layer and EVERY one of the 1,024 field subsets S (exhaustive per word): get_word_info_subset(id, S.normalize()) "
